@@ -15,6 +15,7 @@ import (
 	"flag"
 	"fmt"
 	"sort"
+	"strconv"
 	"strings"
 	"testing"
 	"time"
@@ -69,6 +70,9 @@ func genC18Op(rt *rapid.T, c *C18Case, identity bool) C18Op {
 	kinds := []string{"inc", "inc", "add", "gauge", "obs", "obs", "timer", "search", "dbop", "dbop", "readall", "pctl"}
 	if identity {
 		kinds = append(kinds, "monoff", "monon") // the monitor's switch is a plain flag: single task only
+		if rapid.IntRange(0, 7).Draw(rt, "crowded") == 0 {
+			kinds = append(kinds, "crowd")
+		}
 	}
 	op := C18Op{Kind: rapid.SampledFrom(kinds).Draw(rt, "kind")}
 	switch op.Kind {
@@ -76,6 +80,9 @@ func genC18Op(rt *rapid.T, c *C18Case, identity bool) C18Op {
 		op.Name = rapid.IntRange(0, len(c.Names)-1).Draw(rt, "name")
 		op.Tags = rapid.IntRange(0, len(c.TagSets)-1).Draw(rt, "tags")
 		op.V = int64(rapid.SampledFrom([]int{0, 1, 2, 3, 5, 7, 10, 12, 100, 10000, 10001, 50000}).Draw(rt, "v"))
+	case "crowd": // many distinct series of one kind: registries far larger than a handful of names
+		op.Name = rapid.IntRange(0, 3).Draw(rt, "ckind")
+		op.V = int64(rapid.SampledFrom([]int{60, 999, 1000, 1001, 2500}).Draw(rt, "cn"))
 	case "search":
 		op.Hit = rapid.Bool().Draw(rt, "hit")
 		op.V = int64(rapid.IntRange(0, 30).Draw(rt, "qlen"))
@@ -221,6 +228,31 @@ func (s *c18Sys) apply(op C18Op, r *c18Rec) {
 				r.errs = append(r.errs, fmt.Sprintf("histogram %s: percentile %v = %v is below a lower percentile's %v", id, p, v, last))
 			}
 			last = v
+		}
+	case "crowd":
+		kind := []string{"counter", "gauge", "hist", "timer"}[op.Name%4]
+		for i := int64(0); i < op.V; i++ {
+			tags := map[string]string{"i": strconv.FormatInt(i, 10)}
+			id := kind + "|crowd|" + tagsKey(tags)
+			for rep := 0; rep < 2; rep++ { // every series is asked for twice: the second lookup must find the first one's metric
+				switch kind {
+				case "counter":
+					ctr := s.col.Counter("crowd", copyTags(tags))
+					r.ptrs[id] = append(r.ptrs[id], unsafe.Pointer(ctr))
+					ctr.Inc()
+					r.incs[id]++
+				case "gauge":
+					r.ptrs[id] = append(r.ptrs[id], unsafe.Pointer(s.col.Gauge("crowd", copyTags(tags))))
+				case "hist":
+					h := s.col.Histogram("crowd", copyTags(tags))
+					r.ptrs[id] = append(r.ptrs[id], unsafe.Pointer(h))
+					h.Observe(float64(i))
+					r.obsN[id]++
+					r.obsSum[id] += i
+				case "timer":
+					r.ptrs[id] = append(r.ptrs[id], unsafe.Pointer(s.col.Timer("crowd", copyTags(tags))))
+				}
+			}
 		}
 	case "monoff":
 		s.mon.Enable(false)
